@@ -246,14 +246,165 @@ def correspondence(ctx):
     ctx.oblige(f"correspondence: {len(terms)} exact directional derivatives (dual-number second component evaluated by Coq) vs <grad_quadratic_form_inv, D>", bad == 0, f"{bad}")
 
 
+def _fr(a, den=200):
+    return [[Fraction(float(x)).limit_denominator(den) for x in row] for row in np.atleast_2d(a)]
+
+
+def _fl(F):
+    return np.array([[float(x) for x in row] for row in F])
+
+
+def _mul(A, B):
+    return [[sum((A[i][l] * B[l][j] for l in range(len(B))), Fraction(0)) for j in range(len(B[0]))] for i in range(len(A))]
+
+
+def _tr(A):
+    return [list(r) for r in zip(*A)]
+
+
+def _add(A, B, c=1):
+    return [[a + c * b for a, b in zip(ra, rb)] for ra, rb in zip(A, B)]
+
+
+def _eye(n):
+    return [[Fraction(int(i == j)) for j in range(n)] for i in range(n)]
+
+
+def _inv(A):
+    """exact Gauss-Jordan inverse over the rationals"""
+    n = len(A)
+    a = [list(r) + e for r, e in zip(A, _eye(n))]
+    for c in range(n):
+        p = next(r for r in range(c, n) if a[r][c] != 0)
+        a[c], a[p] = a[p], a[c]
+        a[c] = [x / a[c][c] for x in a[c]]
+        for r in range(n):
+            if r != c and a[r][c] != 0:
+                a[r] = [x - a[r][c] * y for x, y in zip(a[r], a[c])]
+    return [r[n:] for r in a]
+
+
+def _qm(F):
+    return "(of_list " + coq_list([coq_list([f"({x.numerator} # {x.denominator})" for x in row]) for row in F]) + ")"
+
+
+def _spd(rng, n):
+    a = _fr(rng.standard_normal((n, n)), 20)
+    return _add(_mul(a, _tr(a)), _eye(n), Fraction(1, 2))
+
+
+def param_cases(rng):
+    """-> (label, implementation's <grad_quadratic_form_inv(v), D>, Coq term of the exact dual-number derivative, Coq term of the
+    model's reported gradient contracted with D) for every rational parametrisation of Lib/DualGrad.v"""
+    import mici.matrices as mm
+    out = []
+    n, k = int(rng.integers(2, 4)), int(rng.integers(1, 3))
+    v = _fr(rng.standard_normal((n, 1)), 50)
+    vq, vf = _qm(v), _fl(v)[:, 0]
+    q1 = lambda t: f"to_list 1 1 (fun _ _ => {t})"  # noqa: E731
+
+    def factor(label, obj, M, F, K, c, D):
+        Mi = _inv(M)
+        kk = len(K)
+        dM = f"(mscal ({c} # 1) (madd (mmul {kk} {_qm(D)} (mmul {kk} {_qm(K)} (mtr {_qm(F)}))) (mmul {kk} {_qm(F)} (mmul {kk} {_qm(K)} (mtr {_qm(D)})))))"
+        out.append((label, contract(obj.grad_quadratic_form_inv(vf), _fl(D)),
+                    q1(f"dqf_du_fast {n} {_qm(Mi)} ({dM}) {vq}"),
+                    q1(f"factor_contract_fast {n} {kk} {_qm(Mi)} {_qm(F)} {_qm(K)} {vq} ({c} # 1) {_qm(D)}")))
+
+    # triangular-factored, both signs, lower and upper factors
+    for lower in (True, False):
+        tri = np.tril if lower else np.triu
+        L = _fr(tri(rng.standard_normal((n, n)) + 3 * np.eye(n)), 20)
+        D = _fr(tri(rng.standard_normal((n, n))), 20)
+        for sg in (1, -1):
+            M = [[sg * x for x in row] for row in _mul(L, _tr(L))]
+            factor(f"TriangularFactoredDefinite(sign={sg},lower={lower})", mm.TriangularFactoredDefiniteMatrix(_fl(L), sign=sg, factor_is_lower=lower), M, L, _eye(n), sg, D)
+        factor(f"TriangularFactoredPositiveDefinite(lower={lower})", mm.TriangularFactoredPositiveDefiniteMatrix(_fl(L), factor_is_lower=lower), _mul(L, _tr(L)), L, _eye(n), 1, D)
+    # symmetric products R P R^T
+    kp = n + 1
+    R, P, D = _fr(rng.standard_normal((n, kp)), 20), _spd(rng, kp), _fr(rng.standard_normal((n, kp)), 20)
+    factor("DensePositiveDefiniteProduct", mm.DensePositiveDefiniteProductMatrix(_fl(R), mm.DensePositiveDefiniteMatrix(_fl(P))), _mul(R, _mul(P, _tr(R))), R, P, 1, D)
+    factor("DensePositiveDefiniteProduct(no inner)", mm.DensePositiveDefiniteProductMatrix(_fl(R)), _mul(R, _tr(R)), R, _eye(kp), 1, D)
+    # low-rank updates A + s F K F^T, gradient with respect to F
+    A, K = _spd(rng, n), _spd(rng, k)
+    F0, D = _fr(0.3 * rng.standard_normal((n, k)), 20), _fr(rng.standard_normal((n, k)), 20)
+    for sg in (1, -1):
+        F = F0
+        if sg == -1:
+            lam = np.max(np.abs(np.linalg.eigvals(np.linalg.solve(_fl(A), _fl(F0) @ _fl(K) @ _fl(F0).T))))
+            F = _fr(_fl(F0) * np.sqrt(0.4 / max(lam, 1e-12)), 40)
+        for Kx, lab in ((K, ""), (None, ",no inner")):
+            Ke = Kx if Kx is not None else _eye(k)
+            M = _add(A, _mul(F, _mul(Ke, _tr(F))), sg)
+            args = (mm.DenseRectangularMatrix(_fl(F)), mm.DensePositiveDefiniteMatrix(_fl(A))) + ((mm.DensePositiveDefiniteMatrix(_fl(Kx)),) if Kx is not None else ())
+            factor(f"PositiveDefiniteLowRankUpdate(sign={sg}{lab})", mm.PositiveDefiniteLowRankUpdateMatrix(*args, sign=sg), M, F, Ke, sg, D)
+    # the matrix itself is the parameter
+    S, D = _spd(rng, n), _fr(rng.standard_normal((n, n)), 20)
+    for label, obj, M in (("DenseDefinite(is_posdef=True)", lambda a: mm.DenseDefiniteMatrix(a, is_posdef=True), S),
+                          ("DenseDefinite(is_posdef=False)", lambda a: mm.DenseDefiniteMatrix(a, is_posdef=False), [[-x for x in r] for r in S]),
+                          ("DensePositiveDefinite", mm.DensePositiveDefiniteMatrix, S)):
+        Mi = _inv(M)
+        out.append((label, contract(obj(_fl(M)).grad_quadratic_form_inv(vf), _fl(D)),
+                    q1(f"dqf_du_fast {n} {_qm(Mi)} ({_qm(D)}) {vq}"),
+                    q1(f"contract {n} {n} (dense_grad {n} {_qm(Mi)} {vq}) {_qm(D)}")))
+    # diagonal and scalar parameters
+    d = [Fraction(int(sgn) * int(m), 10) for sgn, m in zip(rng.choice([-1, 1], n), rng.integers(5, 21, n))]
+    dl = [Fraction(int(m), 10) for m in rng.integers(-15, 16, n)]
+    for label, cls, dd in (("Diagonal", mm.DiagonalMatrix, d), ("PositiveDiagonal", mm.PositiveDiagonalMatrix, [abs(x) for x in d])):
+        M = [[dd[i] if i == j else Fraction(0) for j in range(n)] for i in range(n)]
+        Mi = _inv(M)
+        dlq = "(of_vec " + coq_list([f"({x.numerator} # {x.denominator})" for x in dl]) + ")"
+        out.append((label, contract(cls(np.array([float(x) for x in dd])).grad_quadratic_form_inv(vf), np.array([float(x) for x in dl])),
+                    q1(f"dqf_du_fast {n} {_qm(Mi)} (mdiag {dlq}) {vq}"),
+                    q1(f"sumn {n} (fun i => diag_grad {n} {_qm(Mi)} {vq} i * {dlq} i)")))
+    sc, ds = Fraction(int(rng.choice([-1, 1])) * int(rng.integers(5, 21)), 10), Fraction(int(rng.integers(-15, 16)), 10)
+    for label, cls, s0 in (("ScaledIdentity", mm.ScaledIdentityMatrix, sc), ("PositiveScaledIdentity", mm.PositiveScaledIdentityMatrix, abs(sc))):
+        sq, dsq = f"({s0.numerator} # {s0.denominator})", f"({ds.numerator} # {ds.denominator})"
+        out.append((label, float(cls(float(s0), n).grad_quadratic_form_inv(vf)) * float(ds),
+                    q1(f"dqf_du_fast {n} (mscal (/ {sq}) mI) (mscal {dsq} mI) {vq}"),
+                    q1(f"scaled_grad {n} {vq} {sq} * {dsq}")))
+    return out
+
+
+def param_correspondence(ctx):
+    """Lib/DualGrad.v: for every rational parametrisation the exact directional derivative (second dual component, exact inverse)
+    and the model's reported gradient, both evaluated by Coq, vs the implementation's reported gradient contracted with D."""
+    labels, impl, terms = [], [], []
+    for _ in range(2 if not ctx.thorough else 8):
+        for label, g, t_exact, t_model in param_cases(ctx.rng):
+            labels.append(label)
+            impl.append(g)
+            terms += [t_exact, t_model]
+    body = ("Require Import Mici.Lib.QMat Mici.Lib.Dual Mici.Lib.DualGrad Mici.Model.Matrices.\nOpen Scope Q_scope.\nEval vm_compute in "
+            + coq_list(terms) + ".\n")
+    vals = parse_coq_value(ctx.coq_eval(body, name="param_grad_cases", timeout=900)[0])
+    bad = 0
+    for i, (label, g) in enumerate(zip(labels, impl)):
+        ex, mo = (Fraction(*vals[2 * i][0][0]), Fraction(*vals[2 * i + 1][0][0]))
+        ctx.case(("param-grad", label, round(g, 6)))
+        ctx.count(f"corr:param_grad:{label.split('(')[0]}")
+        if ex != mo:
+            bad += 1
+            ctx.fail("corr:param_grad_model", f"{label}: the model's reported gradient contracted with D ({float(mo)}) is not the exact dual-number derivative ({float(ex)})", {"class": label}, kind="corr")
+        if not abs(float(ex) - g) <= 1e-8 * max(1.0, abs(g)):
+            bad += 1
+            ctx.fail(f"corr:param_grad:{label}", f"{label}.grad_quadratic_form_inv contracted with a direction gives {g}; the exact directional derivative of v^T M^-1 v "
+                     f"(dual-number second component evaluated by Coq with the exact rational inverse) is {float(ex)}", {"class": label, "impl": g, "exact": float(ex)}, kind="corr")
+    ctx.oblige(f"correspondence: {len(labels)} (class / option) cases over all rational parametrisations (triangular factors both signs and shapes, symmetric products, "
+               "low-rank updates both signs with / without inner matrix, dense, diagonal, scaled identity): exact directional derivative evaluated by Coq = model's reported "
+               "gradient contracted with D (exactly) = implementation's <grad_quadratic_form_inv, D> (1e-8)", bad == 0, f"{bad}")
+
+
 def run(ctx):
     ctx.rule = "per (class / option, size, repetition, request number): directional finite difference of the dense formula vs the reported gradient contracted with the direction"
     ctx.assume("log-determinant gradients for dense / low-rank parameters rest on Jacobi's formula (not formalised); SoftAbs gradients (eigen-perturbation calculus) are covered by "
                "the search only (partial)", "finite differences with step 1e-6, tolerance 2e-5")
-    ctx.trust("Lib/Dual.v dual-number calculus tied by correspondence for the triangular-factored class")
-    model_ok = ctx.build(["Model/Matrices.vo", "Lib/Dual.vo"], label="executable model")
+    ctx.trust("Lib/Dual.v, Lib/DualGrad.v dual-number calculus tied by correspondence for every rational parametrisation (triangular-factored, product, low-rank, dense, "
+              "diagonal, scaled identity); SoftAbs and log-determinant gradients are not formalised")
+    model_ok = ctx.build(["Model/Matrices.vo", "Lib/Dual.vo", "Lib/DualGrad.vo"], label="executable model")
     if model_ok and ctx.build(["Props/C11.vo"]):
         ctx.props()
     if model_ok:
         correspondence(ctx)
+        param_correspondence(ctx)
     search(ctx)
